@@ -111,6 +111,10 @@ M = [
  ("C18-2", ["C18"], [(D, "\t\tvar grp errgroup.Group\n", "\t\tvar grp errgroup.Group\n\t\topened := 0\n"), (D, "\t\t\t\titers[idx] = iter\n", "\t\t\t\titers[idx] = iter\n\t\t\t\topened++\n"), (D, "\t\treturn newMergeIter(iters), nil", "\t\t_ = opened\n\t\treturn newMergeIter(iters), nil")], "unsynchronised counter in openers"),
  ("C18-3", ["C18", "C04"], [(LS, "\tkeys = verifOrder(keys)\n\tslices.Sort(keys)\n", "\tkeys = verifOrder(keys)\n\t_ = slices.Contains[[]int]\n")], "stream key without sort"),
  ("C18-5", ["C18"], [(QY, "\t\tslices.SortFunc(entries, func(a, b entry) int {\n\t\t\treturn cmp.Compare(a.T, b.T)\n\t\t})\n", "\t\t_ = cmp.Compare[int]\n\t\t_ = slices.Contains[[]int]\n")], "renderResult without sort"),
+ ("N-6", [], [(DL, "\trd     io.ReadCloser\n", "\trd     io.ReadCloser\n\tbr     *bufio.Reader\n"), (DL, "\t\trd:       f,\n", "\t\trd:       f,\n\t\tbr:       bufio.NewReaderSize(f, 4096),\n"), (DL, "io.ReadFull(i.rd, i.header[:])", "io.ReadFull(i.br, i.header[:])"), (DL, "io.CopyN(&i.buf, i.rd, int64(frameSize))", "io.CopyN(&i.buf, i.br, int64(frameSize))"), (DL, 'import (\n\t"bytes"', 'import (\n\t"bufio"\n\t"bytes"')], "NEUTRAL: stream read through a (correct) 4 KiB bufio.Reader - read-ahead"),
+ ("N-7", [], [(D, "\t\tvar grp errgroup.Group\n\t\tfor idx, ctr := range containers {\n\t\t\tctr := ctr\n\t\t\tgrp.Go(func() error {", "\t\tvar grp errgroup.Group\n\t\tgrp.SetLimit(1)\n\t\tfor idx, ctr := range containers {\n\t\t\tctr := ctr\n\t\t\tgrp.Go(func() error {")], "NEUTRAL: opens serialised (errgroup limit 1)"),
+ ("N-8", [], [(MI, "\tdefault:\n\t\t// heap.Pop removed drained iterator from heap.\n\t\treturn true", "\tdefault:\n\t\t// heap.Pop removed drained iterator from heap.\n\t\t_ = iter.Close()\n\t\treturn true")], "NEUTRAL: drained sources closed early (and again at the end)"),
+ ("N-9", [], [(ES, "\t\tif !i.iter.Next(&record) || (i.limit > 0 && i.entries >= i.limit) {", "\t\tif (i.limit > 0 && i.entries >= i.limit) || !i.iter.Next(&record) {")], "NEUTRAL: limit checked before pulling the next record (no read past the limit)"),
  ("N-1", [], [(MI, "return a.record.Timestamp < b.record.Timestamp", "return a.record.Timestamp <= b.record.Timestamp")], "NEUTRAL? heap Less with <= (changes tie order deterministically)"),
  ("N-2", [], [(D, "\t\tvar grp errgroup.Group\n", "\t\tvar grp errgroup.Group\n\t\tgrp.SetLimit(2)\n")], "NEUTRAL: errgroup limit 2"),
  ("N-3", [], [(DL, "\ti.buf.Reset()\n", "\ti.buf.Reset()\n\ti.buf.Grow(4096)\n")], "NEUTRAL: buffer pre-grown"),
@@ -224,8 +228,15 @@ def main():
     ths = [threading.Thread(target=worker, args=(s,)) for s in range(jobs)]
     [t.start() for t in ths]
     [t.join() for t in ths]
+    rpath = os.path.join(VERIF, "tools", "mutants_result.json")
+    if only and os.path.isfile(rpath):
+        # a partial run updates the recorded table instead of replacing it
+        old = {r["id"]: r for r in json.load(open(rpath))}
+        for r in results:
+            old[r["id"]] = r
+        results = list(old.values())
     results.sort(key=lambda r: r["id"])
-    json.dump(results, open(os.path.join(VERIF, "tools", "mutants_result.json"), "w"), indent=1)
+    json.dump(results, open(rpath, "w"), indent=1)
     for s in range(jobs):
         wt = os.path.join(SCRATCH, "slot%d" % s)
         sh(["git", "-C", REPO, "worktree", "remove", "--force", wt])
